@@ -63,6 +63,7 @@ class RegExec:
         self.steps = 0
         self.record_models = record_models or {}
         self.log = []
+        self.collisions = []      # (registry text, key, old, new)
         self.raised = []          # (class qname, exception text)
 
     def obj(self, info):
@@ -293,6 +294,9 @@ class RegExec:
             base = self.ev(t.value, env, owner)
             k = self.ev(t.slice, env, owner)
             if isinstance(base, (dict, list)):
+                if isinstance(base, dict) and k in base and \
+                        base[k] is not v and k is not None:
+                    self.collisions.append((unparse(t.value), k, base[k], v))
                 base[k] = v
             else:
                 raise AnalysisError("registration: item store on %r"
